@@ -39,10 +39,15 @@ T2 = consts(C0, [1, 2], 1, 1, fx=2, coin=2, erc=2, esc=2, pool=8)
 T3 = consts(C02, [1], 1, 0, pool=2, dn=["fx", "t1"], memo=["none", "good"])
 T4 = consts(C02, [1], 0, 1, pool=2, dn=["fx", "tb", "t1"], memo=["none", "good", "bad"])
 
+M1Q = consts(C0, [1, 2], 2, 1, fx=2, pool=4)
+M2Q = consts(C02, [1], 1, 0, pool=2)
+
 MC = [
     dict(name="dev", tiers=["dev"], consts=DEV),
-    dict(name="one", tiers=["quick", "thorough"], consts=M1),
-    dict(name="two", tiers=["quick", "thorough"], consts=M2),
+    dict(name="oneq", tiers=["quick"], consts=M1Q),
+    dict(name="twoq", tiers=["quick"], consts=M2Q),
+    dict(name="one", tiers=["thorough"], consts=M1),
+    dict(name="two", tiers=["thorough"], consts=M2),
 ]
 GEN = [
     cfg("dev", ["dev"], DEV, rej_sample=3),
